@@ -24,4 +24,83 @@ def obligations(ctx, cfg):
     ph = PublishHandler(ctx)
     ph.id = 'C01.d-publish-handler'
     obs.append(ph)
+    obs.append(SubscriptionActorHistory(ctx, 'C01.g-history-subscription-actor'))
     return obs
+
+
+# ---------------------------------------------------------------------- history through the real PublisherService (no field of it is named)
+from framework import Obligation, Claim, Cover, run_async
+from values import *
+from interp import run_to_end
+
+
+class PublisherHistory(Obligation):
+    id = 'C01.h-history-publisher-service'
+    tier = 'T3'
+    desc = ('PublisherService::new(TopicManager::new()) for real, then CreateTopic T, Publish T, the topic is deleted (its actor unregisters it), CreateTopic T again, '
+            'Publish T: the second publish is handed to the topic that is registered under T now - not to the deleted one')
+    bounds = {'history': 'the 5 steps above', 'messages_per_publish': 1}
+    unroll = 8
+
+    def body(self, ip, p):
+        ctx = ip.ctx
+        from props.service import proto, request, start_handler
+        from props.C10 import typed_reply as default_reply
+        from props.C09 import BytesTok, AttrMapTok
+        from models_core import ok
+        from models_str import StrTok
+        from models_sync import ArcCell
+        install_tokens(ctx)
+        ctx.on_enqueue = default_reply
+        mgr = run_to_end(ip.call_fn(ctx.fn('TopicManager', 'new'), []))
+        mgr_arc = ArcCell(Cell(mgr, 'topic-manager'))
+        svc = run_to_end(ip.call_fn(ctx.fn('PublisherService', 'new'), [mgr_arc]))
+        name = sym_name(ctx, p, 'TopicName', 'T')
+        ip.hooks[r'^parse_topic_name$'] = lambda ip_, callee, args: (ok(name),)
+        field = StrTok(p.fresh('name_field'))
+
+        def call(method, req):
+            fut = start_handler(ip, p, 'publisher', method, svc, request(req))
+            res, _ = run_async(ip, p, fut, budget=0)
+            return res
+
+        def publish():
+            n0 = len(p.log)
+            msg = proto(ctx, 'PubsubMessage', data=BytesTok(p.fresh('data')), attributes=AttrMapTok(p.fresh('attrs')))
+            r = call('publish', proto(ctx, 'PublishRequest', topic=field, messages=Seq([msg], 1)))
+            return r, [e for e in p.log[n0:] if e[0] == 'enqueue']
+
+        def registered_sender():
+            r = run_to_end(ip.call_fn(ctx.fn('TopicManager', 'get_topic'), [Ref(mgr_arc.deref_loc(ip)), Ref(Loc(Cell(name)))]))
+            if r.discr != 0:
+                return None
+            t = read_loc(r.payload[0][0].deref_loc(ip))
+            return fld(ctx, t, 'Topic', 'sender', 'topics/topic')
+        c1 = call('create_topic', proto(ctx, 'Topic', name=field))
+        s1 = registered_sender()
+        p1, e1 = publish()
+        # the topic actor, handling Delete, unregisters the topic (TopicActor::delete, decided in C11.a)
+        delegate = mk(ctx, 'TopicManagerDelegate', state=fld(ctx, mgr_arc.cell.v, 'TopicManager', 'state'))
+        run_to_end(ip.call_fn(ctx.fn('TopicManagerDelegate', 'delete'), [Ref(Loc(Cell(delegate))), Ref(Loc(Cell(name)))]))
+        c2 = call('create_topic', proto(ctx, 'Topic', name=field))
+        s2 = registered_sender()
+        p2, e2 = publish()
+        return {'c1': c1, 'c2': c2, 'p1': p1, 'p2': p2, 'e1': e1, 'e2': e2, 's1': s1, 's2': s2}
+
+    def post(self, ip, p, res):
+        out = [Claim('both CreateTopic calls and both Publish calls succeed', all(res[k].discr == 0 for k in ('c1', 'c2', 'p1', 'p2')))]
+        s1, s2 = res['s1'], res['s2']
+        out.append(Claim('the re-created topic is a new topic (its own mailbox)', s1 is not None and s2 is not None and z3.simplify(s1.tok != s2.tok) is not None and s1.tok != s2.tok))
+        for k, s_ in (('e1', s1), ('e2', s2)):
+            enq = res[k]
+            out.append(Claim('%s publish: exactly one request, to the topic registered under the name at that moment' % ('first' if k == 'e1' else 'second'),
+                             z3.And(z3.BoolVal(len(enq) == 1), enq[0][2] == s_.tok) if enq and s_ is not None else False))
+        out.append(Cover('reached'))
+        return out
+
+
+_obligations_c01 = obligations
+
+
+def obligations(ctx, cfg):
+    return _obligations_c01(ctx, cfg) + [PublisherHistory()]
